@@ -444,6 +444,10 @@ func main() {
 		child(os.Args[2:])
 		return
 	}
+	if len(os.Args) > 1 && os.Args[1] == "utxochild" {
+		utxoChild(os.Args[2:])
+		return
+	}
 	run := vlib.Start("C20", "exploration")
 	bindir := os.Getenv("VERIF_BIN_DIR")
 	plain := bindir + "/c20.main"
@@ -465,6 +469,28 @@ func main() {
 	tmp, _ := os.MkdirTemp("", "c20")
 	defer os.RemoveAll(tmp)
 	var mu sync.Mutex
+	// integration part (utxoint.go): lib/chain + lib/utxo on top of the allocator, wired as client/common/config.go does
+	var uwg sync.WaitGroup
+	for k := 0; k < run.N(1, 6); k++ {
+		uwg.Add(1)
+		go func(k int) {
+			defer uwg.Done()
+			sf := fmt.Sprintf("%s/utxo%d.json", tmp, k)
+			seed := run.Seed*100 + int64(k)
+			res := vlib.RunChild(plain, []string{"utxochild", fmt.Sprint(seed), run.Tier, sf}, []string{"GOTRACEBACK=all", "TMPDIR=" + tmp}, nil, 40*time.Minute)
+			mu.Lock()
+			defer mu.Unlock()
+			ok := run.ImportState(sf)
+			if res.TimedOut {
+				run.Inconclusive("utxo-on-allocator child watchdog fired (seed %d)", seed)
+				return
+			}
+			if res.ExitCode != 0 || !ok {
+				run.Violation("utxo-on-allocator/child-died", fmt.Sprintf("the node running its UTXO records on the allocator died (exit %d %s)", res.ExitCode, res.Signal),
+					map[string]interface{}{"child_seed": seed, "output_tail": vlib.Tail(res.Out, 4000)})
+			}
+		}(k)
+	}
 	caps := map[int]bool{}
 	vlib.Parallel(len(jobs), 4, func(i int) {
 		j := jobs[i]
@@ -540,6 +566,10 @@ func main() {
 	_ = runtime.NumCPU
 	run.Assume("allocator accesses to mmap'ed slot memory are invisible to the race detector; covered by pattern sweeps")
 	run.Assume("defragmentation is exercised only at quiescence (documented as exclusive)")
+	uwg.Wait()
+	if run.Get("defrag_passes_that_moved_records") == 0 && run.Violations() == 0 {
+		run.Inconclusive("utxo-on-allocator: no defragmentation pass moved a record of the live UTXO set")
+	}
 	os.RemoveAll(tmp) // Finish exits the process: deferred clean-up would not run
 	run.Finish("each case = one Malloc(size)/Free/hand-over/defrag-relocation on the real allocator checked against a shadow registry (unique id pattern, header, disjointness, Allocs) ; distinct_nontrivial = distinct requested sizes", "ops", "sizes", 100)
 }
